@@ -20,7 +20,7 @@ class Tree:
         defines a function and the ordinary module imports it (which pulls that __init__ into the type checker's graph)."""
         self.tid = tid
         self.T = f"{tid:04d}"
-        self.label = "+".join("/".join(p) + ("" if init else "(no-init)") for p, init in dirs) + f":{fname}.py" + (":imported-module" if imported == "module" else (":imported-init" if imported else ""))
+        self.label = "+".join("/".join(p) + ("" if init else "(no-init)") for p, init in dirs) + f":{fname}.py" + (":imported-module" if imported == "module" else (":imported-class" if imported == "class" else (":imported-init" if imported else "")))
         self.files: dict[str, str] = {}
         self.expect: list[tuple[str, bool]] = []  # (function name, excluded without flag)
         root = f"{PKG}/t{self.T}"
@@ -38,7 +38,14 @@ class Tree:
             func = f"fn{self.T}{k}"
             self.files[f"{root}/{'/'.join(path)}/{fn}.py"] = f"def {func}(a: int) -> int:\n    return a\n"
             self.expect.append((func, any(seg in EXCLUDED for seg in path)))
-            if imported == "module" and init:
+            if imported == "class" and init:
+                # the ordinary module uses a CLASS of the module inside the special directory as type and superclass
+                pkg_dotted = f"{PKG}.t{self.T}." + ".".join(path)
+                cname = f"Helper{self.T}{k}"
+                self.files[f"{root}/{'/'.join(path)}/{fn}.py"] += f"\n\nclass {cname}:\n    def hm{self.T}{k}(self) -> int:\n        return 1\n"
+                self.files[f"{root}/ord{self.T}.py"] = f"from {pkg_dotted}.{fn} import {cname}\n\n\n" + self.files[f"{root}/ord{self.T}.py"] + f"\n\ndef uses{self.T}{k}(h: {cname}) -> {cname}:\n    return h\n"
+                self.expect.append((f"hm{self.T}{k}", any(seg in EXCLUDED for seg in path)))
+            elif imported == "module" and init:
                 # the ordinary module imports a function of the MODULE inside the special directory (this pulls that
                 # module into the type checker's graph although it is not among the analysed files)
                 pkg_dotted = f"{PKG}.t{self.T}." + ".".join(path)
@@ -67,6 +74,7 @@ def enumerate_trees(tier: str) -> list[Tree]:
             out.append(Tree(next(tid), [(path, True)], "m", imported=True))
             for fname in ("m", "conftest", "test_m"):
                 out.append(Tree(next(tid), [(path, True)], fname, imported="module"))
+            out.append(Tree(next(tid), [(path, True)], "m", imported="class"))
     if tier == "thorough":
         for d1, d2 in itertools.product(DIRS, repeat=2):
             for init in (True, False):
